@@ -872,6 +872,7 @@ type jOp struct {
 	NewQueue    []int          `json:"impl_newly_queued"`
 	IDs         []int          `json:"command,omitempty"`
 	OK          bool           `json:"ok,omitempty"`
+	Withheld    bool           `json:"deletion_not_yet_observed_by_cluster_state,omitempty"`
 }
 
 type caseR struct {
@@ -1011,7 +1012,7 @@ func runRounds(c *kit.Ctx, r *kit.Rand, nOps int) {
 	genEnv := func() jEvent {
 		var ids []int
 		for _, id := range s.order {
-			if !s.nodes[id].Anchor && !pinned[id] {
+			if !s.nodes[id].Anchor && !pinned[id] && !w.hold[id] {
 				ids = append(ids, id)
 			}
 		}
@@ -1046,7 +1047,22 @@ func runRounds(c *kit.Ctx, r *kit.Rand, nOps int) {
 			return jEvent{Kind: "add", NewNode: &n}
 		}
 	}
+	var held []int // successfully completed candidates whose deletion cluster state has not seen yet
+	roundsSinceHold := 0
+	deliver := func(ids []int) {
+		for _, id := range ids {
+			delete(w.hold, id)
+			e := jEvent{Kind: "delete", Node: id} // the informer delivers the deletionTimestamp
+			s.applyEvent(e)
+			gops = append(gops, s.envOps(e, r)...)
+			jops = append(jops, jOp{Op: "env", Event: &e})
+		}
+	}
 	for k := 0; k < nOps; k++ {
+		if len(held) > 0 && roundsSinceHold > 0 {
+			deliver(held)
+			held = nil
+		}
 		before := queued()
 		x := r.Intn(10)
 		if forceM >= 0 {
@@ -1290,6 +1306,7 @@ func runRounds(c *kit.Ctx, r *kit.Rand, nOps int) {
 			}
 			gops = append(gops, fmt.Sprintf("(ODisrupt %s %s %s %s %s %s [] %s %s, %s, %s, %s)", methodNames[m], kit.GListOf(jc, gCand), choice, kit.GBool(!dv.schedulingRejected),
 				kit.GList(betweenTerms), kit.GListOf(cur, gCand), kit.GListOf(cur, gCand), gInts(startfail), gInts(newq), gObservedMapping(rec.mapping, w), s.post(r)))
+			roundsSinceHold++
 			jops = append(jops, jOp{Op: "disrupt", Method: methodNames[m], Between: between, Cands: jc, Proposed: proposed, NewQueue: newq, Mapping: rec.mapping, Fault: fault, StartFailed: startfail})
 		case x < 9 && len(cmdsInFlight) > 0:
 			// the queue finishes a command (successfully if it needs no replacement, else it times out)
@@ -1331,19 +1348,32 @@ func runRounds(c *kit.Ctx, r *kit.Rand, nOps int) {
 					panic(err)
 				}
 			}
+			// The queue has issued the Delete calls; cluster state sees the deletionTimestamp only when the
+			// NodeClaim informer delivers it. Half of the time that delivery is withheld until after the
+			// next disruption round (the two controllers run concurrently).
+			withhold := ok && r.Chance(1, 2)
 			for _, id := range ids {
 				if ok {
-					s.nodes[id].Deleting = true
-					w.refresh(id)
+					w.hold[id] = true
 				} else {
 					s.nodes[id].Marked = false
 				}
 			}
 			gops = append(gops, fmt.Sprintf("(OComplete %s %s, [], [], %s)", gInts(ids), kit.GBool(ok), s.post(r)))
-			jops = append(jops, jOp{Op: "complete", IDs: ids, OK: ok})
+			jops = append(jops, jOp{Op: "complete", IDs: ids, OK: ok, Withheld: withhold})
 			c.Count(fmt.Sprintf("R:complete:ok=%v", ok))
+			if withhold {
+				c.Count("R:complete:deletion-not-yet-observed")
+				held = append(held, ids...)
+				roundsSinceHold = 0
+				forceM = kit.Pick(r, []int{m0, m0, mEmptiness, mDrift, mMulti, mSingle}) // a disruption round comes first
+			} else if ok {
+				deliver(ids)
+			}
 		case x == 9 && r.Chance(1, 3):
 			// restart: the queue and the in-memory marks are lost, the API objects stay
+			deliver(held)
+			held = nil
 			w.cluster.Reset()
 			w.queue = disruption.NewQueue(w.c, w.recorder, w.cluster, w.clk, w.prov)
 			for _, id := range s.order {
